@@ -60,6 +60,7 @@ type Rec struct {
 	InFlight int    `json:"in_flight,omitempty"` // steps it is handling right now
 	Steps    int    `json:"steps,omitempty"`     // steps it has started so far
 	Trace    string `json:"trace,omitempty"`
+	StepIdx  int    `json:"step_idx,omitempty"` // device-at-answer: index of the judged step in the case
 }
 
 type opHandle struct {
@@ -554,11 +555,12 @@ func runOneCase(path string) {
 	hung := false
 	launched := false
 	var lastReq *opHandle
-	for _, s := range c.Steps {
+	for stepIdx, s := range c.Steps {
 		if hung {
 			break
 		}
 		s := s
+		stepIdx := stepIdx
 		var h *opHandle
 		switch s.Op {
 		case "sleep":
@@ -580,6 +582,18 @@ func runOneCase(path string) {
 			continue
 		case "await-quiescent":
 			r.awaitQuiescent(s.Ms)
+			continue
+		case "join":
+			// wait for every request issued so far to be answered
+			r.mu.Lock()
+			ops := append([]*opHandle(nil), r.ops...)
+			r.mu.Unlock()
+			for _, h := range ops {
+				if !r.waitOp(h, c.opBoundMs("transition")) {
+					hung = true
+					break
+				}
+			}
 			continue
 		case "storm":
 			if !launched {
@@ -652,6 +666,17 @@ func runOneCase(path string) {
 					return "", "unmarshal: " + errStr(err)
 				}
 				resp := task.Transition(cmd)
+				if s.Judged {
+					// what the device is doing at the moment the answer is there
+					st, begun, inflight, trace := r.deviceView()
+					a := Rec{Ev: "device-at-answer", Name: opName, StepIdx: stepIdx, Device: st, Steps: begun, InFlight: inflight, Trace: trace}
+					if resp != nil {
+						a.State, a.Err = resp.CurrentState, resp.ErrorString
+					} else {
+						a.Err = "nil response"
+					}
+					r.rec(a)
+				}
 				if resp == nil {
 					return "", "nil response"
 				}
@@ -678,11 +703,6 @@ func runOneCase(path string) {
 			opName := s.Op
 			if !r.waitOp(h, c.opBoundMs(opName)) {
 				hung = true
-			}
-			if s.Judged && !hung {
-				// what the device is doing at the moment the answer is there
-				st, begun, inflight, trace := r.deviceView()
-				r.rec(Rec{Ev: "device-at-answer", Device: st, Steps: begun, InFlight: inflight, Trace: trace})
 			}
 		}
 	}
